@@ -19,9 +19,9 @@ theorem step_helper_keeps_nothing {c : Cfg} {s s' : St} {e : Env} {a0 a1 dur : N
   obtain ⟨b1, hb1, h⟩ := bind_eq_ok h
   obtain ⟨b2, hb2, h⟩ := bind_eq_ok h
   obtain ⟨_, _, h⟩ := bind_eq_ok h
-  obtain ⟨b3, hb3, h⟩ := bind_eq_ok h
   obtain ⟨lp, _, h⟩ := bind_eq_ok h
   obtain ⟨_, _, h⟩ := bind_eq_ok h
+  obtain ⟨b3, hb3, h⟩ := bind_eq_ok h
   obtain ⟨b4, hb4, h⟩ := bind_eq_ok h
   obtain ⟨_, _, h⟩ := bind_eq_ok h
   obtain ⟨b5, hb5, h⟩ := bind_eq_ok h
